@@ -8,6 +8,13 @@ Import ListNotations.
 Theorem C04_registry_lawful : forallb lawful_dec aggregations = true.
 Proof. exact C04Proofs.registry_lawful. Qed.
 
+(* the per-call specialisation done by _initialize_aggregation (appended min_count counter, the
+   nanmin/nanmax default, dtype-specific fills), OBSERVED on the real function for every registry entry
+   x min_count in {0,1,2} x {float64,int64}: still a lawful decomposition, and exactly what the
+   pipeline model assumes (eff_chunk / eff_combine) *)
+Theorem C04_initialised_aggregations_lawful : forallb init_row_ok initialised = true.
+Proof. exact C04Proofs.initialised_lawful. Qed.
+
 (* ... hence for every built-in aggregation, every component, every split of a group's
    members into any number of ordered parts (empty and all-NaN parts included), the
    n-ary combine of the partial results equals the block function on all members, and
@@ -42,6 +49,7 @@ Theorem C04_user_agg :
 Proof. exact (@tree_law). Qed.
 
 Print Assumptions C04_registry_lawful.
+Print Assumptions C04_initialised_aggregations_lawful.
 Print Assumptions C04_split.
 Print Assumptions C04_allnan_part_neutral.
 Print Assumptions C04_any_tree.
